@@ -376,7 +376,7 @@ class Run:
         want = kind in ('gl', 'll', 'gq', 'm-zt', 'm-stark', 'mse') and kind not in self.sampled and len(self.lines) % 7 == 3
         if want:
             self.sampled.add(kind)
-        self.ctx.case(key=('K', kind) + tuple(key), sample=dict(stream=kind, input=desc, implementation_head=impl[:4]) if want else None)
+        self.ctx.case(key=('K', kind) + tuple(key), sample=dict(stream=kind, input=desc, implementation_head=impl[:4]) if want and not isinstance(impl, str) else None)
 
     def cmd(self, line):
         self.lines.append(line)
@@ -394,6 +394,16 @@ def compare(ctx, run, outs):
     n = 0
     for idx, kind, impl, floor, desc in run.pending:
         o = outs[idx]
+        if isinstance(impl, str):
+            # discrete outputs (object state, raised / not raised): exact comparison
+            n += 1
+            if o != impl:
+                ctx.disagreements += 1
+                ctx.count('disagreement:' + kind)
+                if ctx.hist['disagreement:' + kind] <= 3:
+                    ctx.broke('correspondence', 'C02 stream ' + kind, dict(input=desc, model=o, implementation=impl))
+                run.disagree.append((kind, desc))
+            continue
         try:
             mod = [b2f(t) for t in o.split()]
         except ValueError:
@@ -1106,6 +1116,247 @@ def stream_zeeman_structure(run, n):
                             'normalised table %r for raw %r' % (arr.tolist(), raw), desc, 'zs-ratios', (key, len(raw)))
 
 
+
+# -- setter histories: construct -> set* -> use == fresh(final) --------------------------------------------------------------
+GQ_TABLE_ORDERS = 40
+
+
+def send_gq_table(run):
+    from scipy.special import roots_legendre
+    toks = []
+    for order in range(1, GQ_TABLE_ORDERS + 1):
+        r, w = roots_legendre(order)
+        toks.append('%d %s %s' % (order, fs(r), fs(w)))
+    run.cmd('gqtab %d %s' % (GQ_TABLE_ORDERS, ' '.join(toks)))
+
+
+def gq_state(q):
+    return '%d %d %s' % (q.min_order, q.max_order, f2b(q.relative_tolerance))
+
+
+def _poly_exact(cs, a, b):
+    return sum(c * (b ** (k + 1) - a ** (k + 1)) / (k + 1) for k, c in enumerate(cs))
+
+
+def gq_integrand(rng, q, kind=None, max_degree=None):
+    """install a random integrand on q; returns (driver command tail builder, description, exact integral or None)"""
+    kind = kind or rng.choice(['poly', 'exp', 'runge', 'stark'])
+    if kind == 'poly':
+        deg = rng.randint(0, max_degree if max_degree is not None else 8)
+        cs = [rng.uniform(-2, 2) for _ in range(deg + 1)]
+        q.integrand = lambda x, cs=cs: _horner(cs, x)
+        return (lambda a, b: 'poly %s %s' % (fs([a, b]), fs(cs))), dict(integrand='polynomial', coefficients=cs), cs
+    if kind == 'exp':
+        k = rng.uniform(-3, 3)
+        q.integrand = lambda x, k=k: math.exp(k * x)
+        return (lambda a, b: 'exp %s' % fs([a, b, k])), dict(integrand='exp(kx)', k=k), None
+    if kind == 'runge':
+        k = rng.uniform(0, 40)
+        q.integrand = lambda x, k=k: 1.0 / (1.0 + k * x * x)
+        return (lambda a, b: 'runge %s' % fs([a, b, k])), dict(integrand='1/(1+kx^2)', k=k), None
+    from cherab.core.model.lineshape.stark import StarkFunction
+    x0 = rng.uniform(1.0, 3.0)
+    fw = 10 ** rng.uniform(-1, 0.5)
+    q.integrand = StarkFunction(x0, fw)
+    return (lambda a, b: 'stark %s' % fs([a, b, x0, fw])), dict(integrand='StarkFunction', wavelength=x0, fwhm=fw), None
+
+
+def stream_gq_histories(run, n):
+    """GaussianQuadrature: random sequences of the min_order / max_order / relative_tolerance / integrand setters (raise,
+    lower, equal, invalid) interleaved with evaluations.  K: the object model (flat cache + setters + evaluate) in the
+    driver follows the same history; S: every evaluation equals a freshly constructed integrator with the parameters the
+    getters report, rejected setters change nothing, polynomials of degree <= 2*min_order-1 are integrated exactly."""
+    from cherab.core.math.integrators import GaussianQuadrature
+    rng, ctx = run.rng, run.ctx
+    send_gq_table(run)
+    for it in range(n):
+        mn0 = rng.randint(1, 8)
+        mx0 = min(GQ_TABLE_ORDERS, mn0 + rng.choice([0, 1, 3, rng.randint(0, 14)]))
+        rt0 = rng.choice([1e-5, 1e-3, 1e-8, 1e-2])
+        q = GaussianQuadrature(relative_tolerance=rt0, max_order=mx0, min_order=mn0)
+        hist = [('new', mn0, mx0, rt0)]
+        run.k_case('gqh-state', 'gqnew %d %d %s' % (mn0, mx0, f2b(rt0)), gq_state(q), 0.0, dict(history=list(hist)), key=('new', mn0, mx0))
+        cmdb, idesc, cs = gq_integrand(rng, q)
+        nops = rng.randint(2, 7)
+        for step in range(nops + 2):
+            final = step >= nops
+            op = rng.choice(['min', 'min', 'max', 'max', 'rtol', 'integrand', 'eval']) if not final else ('evalpoly' if step == nops else 'eval')
+            cmn, cmx = q.min_order, q.max_order
+            if op in ('min', 'max', 'rtol'):
+                if op == 'min':
+                    cls = rng.choice(['raise', 'raise', 'lower', 'equal', 'to-max', 'invalid-low', 'invalid-high'])
+                    v = {'raise': rng.randint(cmn, cmx), 'lower': rng.randint(1, cmn), 'equal': cmn, 'to-max': cmx,
+                         'invalid-low': rng.choice([0, -1, -7]), 'invalid-high': cmx + rng.randint(1, 5)}[cls]
+                elif op == 'max':
+                    cls = rng.choice(['raise', 'raise', 'lower', 'equal', 'to-min', 'invalid-low', 'invalid-below-min'])
+                    v = {'raise': rng.randint(cmx, GQ_TABLE_ORDERS), 'lower': rng.randint(cmn, cmx), 'equal': cmx, 'to-min': cmn,
+                         'invalid-low': rng.choice([0, -2]), 'invalid-below-min': cmn - 1}[cls]
+                else:
+                    cls = rng.choice(['valid', 'valid', 'invalid'])
+                    v = rng.choice([1e-5, 1e-3, 1e-8, 1e-2, 10 ** rng.uniform(-10, -1)]) if cls == 'valid' else rng.choice([0.0, -1e-3])
+                before = gq_state(q)
+                attr = {'min': 'min_order', 'max': 'max_order', 'rtol': 'relative_tolerance'}[op]
+                try:
+                    setattr(q, attr, v)
+                    raised = '0'
+                except ValueError:
+                    raised = '1'
+                hist.append((attr, v, 'raised' if raised == '1' else 'ok'))
+                desc = dict(call='GaussianQuadrature.%s = %r' % (attr, v), history=list(hist))
+                line = 'gqset %s %s' % (op, f2b(v) if op == 'rtol' else str(int(v)))
+                run.k_case('gqh-state', line, raised + ' ' + gq_state(q), 0.0, desc, key=(op, cls, cmn, cmx, int(v) if op != 'rtol' else f2b(v)))
+                if raised == '1':
+                    run.s_check(gq_state(q) == before, 'C02:GaussianQuadrature:rejected-setter-changed-state',
+                                '%s = %r raised ValueError but the state went from %s to %s' % (attr, v, before, gq_state(q)), desc, 'gqh-atomic', (op, cls))
+                invalid = cls.startswith('invalid')
+                run.s_check((raised == '1') == invalid, 'C02:GaussianQuadrature:setter-validation',
+                            '%s = %r with (min, max) = (%d, %d): %s' % (attr, v, cmn, cmx, 'accepted' if raised == '0' else 'rejected'), desc, 'gqh-validation', (op, cls))
+            elif op == 'integrand':
+                cmdb, idesc, cs = gq_integrand(rng, q)
+                hist.append(('integrand', idesc['integrand']))
+            else:
+                if op == 'evalpoly':
+                    cmdb, idesc, cs = gq_integrand(rng, q, 'poly', max_degree=2 * q.min_order - 1)
+                    hist.append(('integrand', 'polynomial degree %d <= 2*min_order-1' % (len(cs) - 1)))
+                if idesc['integrand'] == 'StarkFunction':
+                    a = idesc['wavelength'] + idesc['fwhm'] * rng.uniform(-6, 6)
+                    b = a + idesc['fwhm'] * rng.uniform(0.05, 8)
+                else:
+                    a = rng.uniform(-2, 2)
+                    b = a + rng.choice([rng.uniform(0.05, 3), 1.0, -rng.uniform(0.1, 2)])
+                val = q(a, b)
+                hist.append(('evaluate', a, b))
+                desc = dict(call='GaussianQuadrature.__call__', a=a, b=b, state=gq_state(q).split()[:2], rtol=q.relative_tolerance, history=list(hist), **idesc)
+                run.k_case('gqh-eval', 'gqe ' + cmdb(a, b), [val], 1e-13 * abs(b - a), desc, key=(idesc['integrand'], q.min_order, q.max_order, f2b(a), f2b(b)))
+                fresh = GaussianQuadrature(q.integrand, q.relative_tolerance, q.max_order, q.min_order)
+                fv = fresh(a, b)
+                run.s_check(fv == val, 'C02:GaussianQuadrature:setter-history!=fresh-integrator',
+                            'after %r the integrator returns %r on [%r, %r]; a fresh GaussianQuadrature(rtol=%r, max_order=%d, min_order=%d) returns %r'
+                            % (hist[1:-1], val, a, b, q.relative_tolerance, q.max_order, q.min_order, fv), desc, 'gqh-fresh', (q.min_order, q.max_order, len(hist)))
+                if idesc['integrand'] == 'polynomial' and len(cs) - 1 <= 2 * q.min_order - 1:
+                    ex = _poly_exact(cs, a, b)
+                    scale = sum(abs(c) * max(abs(a), abs(b), 1.0) ** (k + 1) for k, c in enumerate(cs))
+                    run.s_check(abs(val - ex) <= 1e-11 * scale, 'C02:GaussianQuadrature:polynomial-not-exact',
+                                'degree %d polynomial on [%r, %r] with min_order %d: %r, exact %r (history %r)' % (len(cs) - 1, a, b, q.min_order, val, ex, hist[1:-1]),
+                                desc, 'gqh-poly-exact', (len(cs) - 1, q.min_order))
+        # the same integrator object inside a StarkBroadenedLine
+        if it % 2 == 0:
+            stark_through_integrator(run, q, hist)
+
+
+def stark_through_integrator(run, q, hist):
+    from cherab.core.math.integrators import GaussianQuadrature
+    from cherab.core import Line, Species
+    from cherab.core.model import lineshape as L
+    rng, W = run.rng, run.W
+    e = gen_env(rng, tclass=rng.choice(['zero', 'cold', 'warm']))
+    e['ne'] = 10 ** rng.uniform(19.5, 21.5)
+    e['te'] = 10 ** rng.uniform(-0.5, 1.5)
+    e['wl'] = 656.104
+    cab = (3.71e-18, 0.7665, 0.064)
+    fl = cab[0] * e['ne'] ** cab[1] / e['te'] ** cab[2]
+    width = max(fl, 2.355 * o_sigma(e['wl'], e['ts'], e['aw']) if e['ts'] > 0 else 0.0)
+    centre = o_doppler(e['wl'], e['dir'], e['vel'])
+    bins = rng.randint(8, 40)
+    dl = width * rng.uniform(0.1, 0.8)                 # resolved bins: the quadrature is meaningful here
+    mn = centre - dl * bins * rng.uniform(0.3, 0.7)
+    R = rng.uniform(0.5, 3)
+    W.set_env(e)
+    el = W.element(e['aw'])
+    line = Line(el, 0, (3, 2))
+    sp = Species(el, 0, W.ion)
+    pol = rng.choice(['no', 'pi', 'sigma'])
+    fresh = GaussianQuadrature(relative_tolerance=q.relative_tolerance, max_order=q.max_order, min_order=q.min_order)
+    out = []
+    for integ in (q, fresh):
+        m = L.StarkBroadenedLine(line, e['wl'], sp, W.plasma, W.ad, cab, integ, pol)
+        s = spectrum(mn, mn + dl * bins, bins)
+        m.add_line(R, run.P, run.V(*e['dir']), s)
+        out.append(([float(t) for t in s.samples], s))
+    impl, s = out[0]
+    desc = dict(model='StarkBroadenedLine', polarisation=pol, radiance=R, env={k: e[k] for k in ('wl', 'aw', 'ts', 'vel', 'dir', 'b', 'ne', 'te')},
+                extra=dict(cab=cab), min=s.min_wavelength, max=s.max_wavelength, bins=bins, integrator_history=list(hist),
+                integrator_state=gq_state(q).split()[:2], rtol=q.relative_tolerance)
+    run.s_check(impl == out[1][0], 'C02:StarkBroadenedLine:integrator-setter-history!=fresh-integrator',
+                'StarkBroadenedLine with an integrator that went through %r gives Sigma*delta = %r; with a fresh GaussianQuadrature(rtol=%r, max_order=%d, '
+                'min_order=%d) it gives %r' % (hist[1:], sum(impl) * s.delta_wavelength, q.relative_tolerance, q.max_order, q.min_order,
+                                               sum(out[1][0]) * s.delta_wavelength), desc, 'gqh-stark-fresh', (pol, q.min_order, q.max_order))
+    if run.src['lorentz_variant'] != 'cdf':
+        run.cmd('obji 1')
+        run.k_case('gqh-stark', model_line('stark', pol, R, e, dict(cab=cab), s, [0.0] * bins), impl, 1e-11 * R / s.delta_wavelength, desc,
+                   key=(pol, q.min_order, q.max_order, f2b(R)))
+        run.cmd('obji 0')
+
+
+def stream_pol_histories(run, n):
+    """ZeemanLineShapeModel.polarisation setter: construct with A, set (valid spellings, rejected values), use == fresh(final)"""
+    rng, ctx = run.rng, run.ctx
+    cutG = run.src['cutG']
+    kinds = ['zt', 'pz', 'zm', 'stark']
+    spell = {'pi': ['pi', 'PI', 'Pi'], 'sigma': ['sigma', 'SIGMA', 'Sigma'], 'no': ['no', 'NO', 'No']}
+    for it in range(n):
+        kind = kinds[it % 4]
+        e = gen_env(rng, tclass=rng.choice(['cold', 'warm', 'warm', 'hot']))
+        if kind == 'stark':
+            e['ne'] = 10 ** rng.uniform(19.5, 21.5)
+            e['te'] = 10 ** rng.uniform(-0.5, 1.5)
+        extra = gen_tables(rng, e, kind)
+        sg = model_sigma(kind, e, extra)
+        if kind == 'stark':
+            fl, fg = stark_widths_oracle(e, extra['cab'])
+            sg = max(sg, fl / 2.355)
+        centre = o_doppler(e['wl'], e['dir'], e['vel'])
+        mn, mx, bins, cls = gen_window(rng, centre, sg, cutG, rng.choice(['inside', 'straddle-lo', 'straddle-hi', 'random']))
+        if kind == 'stark':
+            bins = max(bins, 10)
+        if mn <= 1.0:
+            continue
+        R = rng.uniform(0.1, 4)
+        run.W.set_env(e)
+        p0 = rng.choice(['no', 'pi', 'sigma'])
+        m = build_model(run, kind, e, p0, extra)
+        cur = p0
+        hist = [('construct', p0)]
+        for _ in range(rng.randint(1, 5)):
+            if rng.random() < 0.25:
+                v = rng.choice(['x', '', 'sigma+', 'none', 'pi '])
+                try:
+                    m.polarisation = v
+                    raised = False
+                except ValueError:
+                    raised = True
+                hist.append((v, 'raised' if raised else 'accepted'))
+                run.s_check(raised and m.polarisation == cur, 'C02:%s:polarisation-setter-validation' % type(m).__name__,
+                            'polarisation = %r: %s, getter now %r (was %r)' % (v, 'raised' if raised else 'accepted', m.polarisation, cur),
+                            dict(model=type(m).__name__, history=list(hist)), 'polh-invalid', (kind, v))
+            else:
+                tgt = rng.choice(['no', 'pi', 'sigma'])
+                v = rng.choice(spell[tgt])
+                m.polarisation = v
+                cur = tgt
+                hist.append((v, 'ok'))
+                run.s_check(m.polarisation == tgt, 'C02:%s:polarisation-getter' % type(m).__name__,
+                            'after polarisation = %r the getter returns %r' % (v, m.polarisation), dict(model=type(m).__name__, history=list(hist)),
+                            'polh-getter', (kind, v))
+        base = gen_base(rng, bins)
+        s = spectrum(mn, mx, bins, base)
+        m.add_line(R, run.P, run.V(*e['dir']), s)
+        impl = [float(t) for t in s.samples]
+        f = build_model(run, kind, e, cur, extra)
+        s2 = spectrum(mn, mx, bins, base)
+        f.add_line(R, run.P, run.V(*e['dir']), s2)
+        desc = dict(model=type(m).__name__, polarisation=cur, polarisation_history=hist, radiance=R,
+                    env={k: e[k] for k in ('wl', 'aw', 'ts', 'vel', 'dir', 'b', 'ne', 'te')}, extra={k: v for k, v in extra.items() if k != 'fns'},
+                    min=s.min_wavelength, max=s.max_wavelength, bins=bins, window=cls)
+        run.s_check(impl == [float(t) for t in s2.samples], 'C02:%s:polarisation-setter-history!=fresh-model' % type(m).__name__,
+                    '%s after %r differs from a model constructed with polarisation=%r' % (type(m).__name__, hist, cur), desc, 'polh-fresh', (kind, p0, cur, len(hist)))
+        dl = s.delta_wavelength
+        if run.src['lorentz_variant'] != 'cdf' or kind != 'stark':
+            floor = (K_FLOOR if kind != 'stark' else 1e-11) * R / dl + 1e-300
+            if 2 * cutG * sg / dl < 2 ** 29:
+                run.k_case('polh-' + kind, model_line(kind, cur, R, e, extra, s, base), impl, floor, desc, key=(p0, cur, len(hist), e['bclass'], f2b(R)))
+
+
 # -- beam emission multiplet ----------------------------------------------------------------------------------------------
 def stream_mse(run, n):
     from cherab.core import Line
@@ -1176,6 +1427,21 @@ def stream_mse(run, n):
             line_ = 'mse %s %s %s' % (f2b(R), fs([e['wl'], e['te'], e['ne'], energy] + e['b'] + bdir + e['dir'] + [mass, btemp, s2p, s1s0, p2p3, p4p3]),
                                       spec_tokens(s, base))
             run.k_case('mse', line_, impl, K_FLOOR * abs(R) / dl + 1e-300, desc, key=(cls, e['bclass'], f2b(R), f2b(energy)))
+        if it % 4 == 1:
+            # the shared Beam has been driven through its energy / temperature / element setters by every earlier case:
+            # a freshly constructed Beam with the final values must give the same spectrum
+            from cherab.core import Beam
+            fb = Beam()
+            fb.plasma = W.plasma
+            fb.energy = energy
+            fb.temperature = btemp
+            fb.element = el
+            fm = BeamEmissionMultiplet(line, e['wl'], fb, W.ad, lambda n_, e_: s2p, lambda n_: s1s0, lambda n_: p2p3, lambda n_: p4p3)
+            s2_ = spectrum(mn, mx, bins, base)
+            fm.add_line(R, Point3D(0, 0, 0), run.P, run.V(*bdir), run.V(*e['dir']), s2_)
+            run.s_check(impl == [float(t) for t in s2_.samples], 'C02:BeamEmissionMultiplet:beam-setter-history!=fresh-beam',
+                        'BeamEmissionMultiplet on a Beam whose energy/temperature/element were changed through the setters differs from a fresh Beam '
+                        'with the same final values', desc, 'mse-fresh-beam', (cls,))
         added = [a - b for a, b in zip(impl, base)]
         if not active:
             run.s_check(impl == [float(t) for t in base], 'C02:BeamEmissionMultiplet:no-width-adds-something',
@@ -1289,6 +1555,9 @@ def run(ctx):
     stream_lorentz(run_, ctx.n(160, 2500))
     stream_starkfunction(run_, ctx.n(15, 150))
     stream_quadrature(run_, ctx.n(100, 1500))
+    stream_gq_histories(run_, ctx.n(60, 1200))
+    set_default_rules(run_)
+    stream_pol_histories(run_, ctx.n(80, 1500))
     stream_models(run_, ctx.n(900, 15000))
     stream_ratios(run_, ctx.n(40, 600))
     stream_zeeman_structure(run_, ctx.n(60, 1000))
@@ -1342,9 +1611,43 @@ def replay_case(run_, case, from_corpus=None):
         ok = abs(tot - want) <= S_GAUSS_TOL * d['radiance']
         run_.s_check(ok, 'C02:add_gaussian_line:integral!=R*window-fraction', 'replay: Sigma*delta=%r want %r' % (tot, want), d, 'corpus', (from_corpus or 'replay',))
         return ok, tot, want
+    hist = d.get('history') or d.get('integrator_history')
+    if hist and hist[0][0] == 'new':
+        return replay_gq_history(run_, d, hist)
     if d.get('model') in MODEL_KINDS:
         return replay_model(run_, d)
     return None
+
+
+def replay_gq_history(run_, d, hist):
+    """re-apply a stored GaussianQuadrature setter history, then compare with a fresh integrator and with the exact
+    integral of a polynomial of degree 2*min_order-1"""
+    from cherab.core.math.integrators import GaussianQuadrature
+    _, mn0, mx0, rt0 = hist[0]
+    q = GaussianQuadrature(relative_tolerance=rt0, max_order=mx0, min_order=mn0)
+    for h in hist[1:]:
+        if h[0] in ('min_order', 'max_order', 'relative_tolerance'):
+            try:
+                setattr(q, h[0], h[1])
+            except ValueError:
+                pass
+    deg = 2 * q.min_order - 1
+    cs = [((-1) ** k) * (1.0 + 0.25 * k) for k in range(deg + 1)]
+    a, b = d.get('a', -0.75), d.get('b', 1.25)
+    if d.get('integrand') == 'StarkFunction':
+        a, b = -0.75, 1.25
+    q.integrand = lambda x: _horner(cs, x)
+    val = q(a, b)
+    fresh = GaussianQuadrature(q.integrand, q.relative_tolerance, q.max_order, q.min_order)
+    fv = fresh(a, b)
+    ex = _poly_exact(cs, a, b)
+    scale = sum(abs(c) * max(abs(a), abs(b), 1.0) ** (k + 1) for k, c in enumerate(cs))
+    run_.s_check(val == fv, 'C02:GaussianQuadrature:setter-history!=fresh-integrator',
+                 'replay: after %r the integrator returns %r on [%r, %r], a fresh one with (min, max, rtol) = (%d, %d, %r) returns %r'
+                 % (hist[1:], val, a, b, q.min_order, q.max_order, q.relative_tolerance, fv), d, 'replay-gqh', ())
+    run_.s_check(abs(val - ex) <= 1e-11 * scale, 'C02:GaussianQuadrature:polynomial-not-exact',
+                 'replay: degree %d polynomial with min_order %d: %r, exact %r' % (deg, q.min_order, val, ex), d, 'replay-gqh-exact', ())
+    return val == fv and abs(val - ex) <= 1e-11 * scale, val, fv
 
 
 MODEL_KINDS = {'GaussianLine': 'gauss', 'MultipletLineShape': 'mult', 'ZeemanTriplet': 'zt', 'ParametrisedZeemanTriplet': 'pz',
